@@ -12,7 +12,6 @@ CONSTANTS RelPids, UnrelPids,  \* inbound packet IDs that are reliable / unrelia
           Depth                \* 0: unbounded, else bound on the behaviour length
 Bound == Depth = 0 \/ TLCGet("level") <= Depth
 View == core
-Range(s) == {s[i] : i \in DOMAIN s}
 \* IDs the peer may acknowledge: every reliable send (pending or not), the newest ID the endpoint
 \* used for something else (an ack it sent, an unreliable send), and the next ID it has not used yet
 Foreign == LET o == Range(ids) \ relIssued IN
@@ -20,9 +19,10 @@ Foreign == LET o == Range(ids) \ relIssued IN
 AckTargets == relIssued \cup Foreign \cup {lastId + 1}
 AckSets == {S \in SUBSET AckTargets : Cardinality(S) <= MaxAcks}
 
-RecvRel(p, acks) == Get(rR, p) < MaxRcv /\ Recv(p, TRUE, acks, lastId + 1, TRUE)
+\* a forgotten ID is dispatched again (the code's choice; the harness does not judge dispatch on such edges)
+RecvRel(p, acks) == Get(rR, p) < MaxRcv /\ Recv(p, TRUE, acks, lastId + 1, TRUE, TRUE)
 \* match = FALSE: the packet is a PacketAck message (needs acks to carry), which the extra subscribers did not ask for
-RecvUnrel(p, acks, match) == Get(rU, p) < MaxRcv /\ (match \/ acks # {}) /\ Recv(p, FALSE, acks, -1, match)
+RecvUnrel(p, acks, match) == Get(rU, p) < MaxRcv /\ (match \/ acks # {}) /\ Recv(p, FALSE, acks, -1, match, TRUE)
 DoSubscribe(l, k) == Len(subs[l]) < MaxSubs /\ Subscribe(l, k)
 DoSendRel == Cardinality(relIssued) < MaxSends /\ SendRel(lastId + 1)
 \* unreliable sends are counted through a ghost that needs no extra variable: ids issued that
